@@ -100,7 +100,7 @@ def run_shard(ctx):
     if f"{P}Bomb" not in ns:
         exec(compile(PRELUDE_BOMB.replace("{P}", P), "<c16 bomb>", "exec", dont_inherit=True), ns)
     Holder, Bomb = ns[f"{P}Holder"], ns[f"{P}Bomb"]
-    if ctx.shard % 2 == 0:
+    if ctx.shard % 4 == 2:
         # a new index-based dump starts from an empty source registry: the first source of the model gets index 0 (an index
         # like any other); in the other shards index 0 belongs to a source no tree refers to
         Source.clear_registry()
